@@ -245,8 +245,14 @@ def check(ctx):
         tm.is_const(sv[0].data["args"][1].args[1], 1) and any(
             x is tm.attr(ro, "np_arrays")
             for x in sv[0].data["args"][1].walk())
-    npy = [e for e in ws if any(tm.is_const(x) and x.args[1] == "{}.npy"
-                                for x in e.data["args"][0].walk())]
+    npy = [e for e in ws if e.data["args"][0].op == "fstr" and
+           len(e.data["args"][0].args) == 2 and
+           tm.is_const(e.data["args"][0].args[1], ".npy")]
+    # ... named after the key that belongs to the saved array
+    if len(sv) == 1 and len(npy) == 1 and sv[0].data["args"][1].op == "sub":
+        key = npy[0].data["args"][0].args[0]
+        ok = ok and key.op == "sub" and tm.is_const(key.args[1], 0) and \
+            key.args[0] is sv[0].data["args"][1].args[0]
     ok = ok and len(npy) == 1 and any(
         x is sv[0].data["args"][0] for x in npy[0].data["args"][1].walk())
     ctx.ob("C06.3", rs.func, ok,
